@@ -161,6 +161,9 @@ class Check(PropertyCheck):
                 if node.node_id != i:
                     res.append(("node-ids", f"{b}: node at position {i} has id {node.node_id}"))
         if line.startswith("graph ") or line == "solved":
+            from impl_ext import graph_lookup_problems
+            for msg in graph_lookup_problems(impl.last_graph)[:2]:
+                res.append(("lookup", f"`{line}`: {msg}"))
             from impl_ext import ImplGraph, fmt_graph, graph_integrity
             for g0, out0, integ0, what in ImplGraph.GRAPH_LOG[:-1]:
                 if fmt_graph(g0) != out0 or graph_integrity(g0) != integ0:
